@@ -315,6 +315,7 @@ namespace
                 bool alloc = phase == 0 ? r.chance(1, 2) : phase == 1;
                 int64_t c = (int64_t)r.below(nc);
                 if (r.chance(1, 20)) p.ops.push_back({2, c, (int64_t)r.below(3)});
+                else if (r.chance(1, 30)) p.ops.push_back({3, c});
                 else if (alloc) p.ops.push_back({0, c});
                 else p.ops.push_back({1, c, r.chance(1, 2) ? -1 : (int64_t)r.below(30)});
             }
@@ -426,6 +427,15 @@ namespace
                 {
                     auto v = sh.of(c);
                     if (!v.empty()) do_free(v[(size_t)mod(arg(o, 2), (int64_t)v.size())]);
+                }
+                else if (k == 3 && kind == 1)
+                {
+                    // the pool is initialised again over the same zone (a reset): whatever was handed out is forgotten by
+                    // everybody, the pool must be exactly a fresh one
+                    sh.live.clear();
+                    ip.init(zone.get(), zsize, elsz);
+                    probe("pool_reinit");
+                    tr.ev("re-init");
                 }
                 else if (k == 2)
                 {
